@@ -60,7 +60,7 @@ CHECKS = {
         "assumptions": ["two seats"],
     },
     "C14": {
-        "harness": ["walk"], "level": "proof",
+        "harness": ["walk", "c14"], "level": "proof",
         "rule": 'state walk of the engine from a dealt hand: quick = every state reachable with the raise sizes the abstraction produces (all ten grid odds through actionize) plus 10k random full-range lines of play; thorough = every reachable betting state with EVERY integer raise size plus 200k random lines. Per state: turn, accepted set of Fold/Check and of Call/Raise/Shove/Blind for every amount -1..=stack+1, four draw probes (well-formed, one card too many, too few, card in play), the deck offered, successors of all non-raise actions and of the extreme/sampled raises, settlements under hero-wins / villain-wins / tie deals; per decision state the menus for raise counts 0..5 with their translations. distinct = distinct (history[, raise count]) inputs',
         "exhaustive": {"quick": False, "thorough": True},
         "trusted_base": ["Model/Game.v, Model/Showdown.v hand written (validated per run); Spec/SpecNLHE.v written from the property text; hooks Game::verif_seats/verif_dealer/verif_ticker/verif_with_holes"],
@@ -158,6 +158,33 @@ CHECKS = {
         "explanation": "update sequences vs extracted rational model and closed forms",
         "trusted_base": ["Model/Discount.v hand written"],
         "assumptions": ["one update per epoch at the information set", "finite f32 inputs"],
+    },
+
+    "C08": {
+        "harness": ["cfr"], "level": "proof",
+        "rule": "tree walker epoch fresh serial: trees sampled by the real Blueprint::tree() (hooks) over random deals during 12 (30) training epochs of 6 (40) fresh solvers with a stand-in card abstraction, dumped node by node (state, turn, bucket, incoming edge and its profile weight, leaf payoffs) with the regret and policy vector of every information set",
+        "exhaustive": {"quick": False, "thorough": False},
+        "trusted_base": ["Model/Cfr.v, Model/Tree.v hand written (validated per run); the estimator spec in Model/Cfr.v written from the property text; hooks Blueprint::verif_new/verif_tree/verif_profile, Encoder stand-in abstraction (a fixed function of the actor's cards and the board)"],
+
+        "spec_prefix": ["c08_"],
+        "technique": "Coq theorem: the regret computed by the model of profile.rs equals the external-sampling estimator (telescoping of reach products along paths, over exact rationals) + per-run replay of real sampled trees",
+        "level_text": "Theorem over the rational-arithmetic instance of the executable model of reach / external_reach / relative_reach / terminal_value / expected_value / cfactual_value / gain (code shapes pinned and repaired-site flags regenerated from profile.rs): on every external-sampling tree the recorded regret is the sampled counterfactual value of the action minus the strategy-weighted average; corollaries: invariance under adding a constant to all payoffs, zero when all actions are worth the same. Per run the regret vector of every information set of real sampled trees is compared with the model and with the estimator (double-precision instance of the same definitions, relative 2e-3).",
+        "level_note": "Trusted: Coq kernel, model (validated per run), translator, extraction + glue, harness + hooks. f32 rounding and the clamp boundary are tested, not proved.",
+        "explanation": "regret vectors of sampled trees vs extracted model and estimator",
+        "assumptions": ["external-sampling shape of the tree (checked per run by C10)"],
+    },
+    "C10": {
+        "harness": ["cfr"], "level": "proof",
+        "rule": "tree walker epoch fresh serial: trees sampled by the real Blueprint::tree() (hooks) over random deals during 12 (30) training epochs of 6 (40) fresh solvers with a stand-in card abstraction, dumped node by node (state, turn, bucket, incoming edge and its profile weight, leaf payoffs) with the regret and policy vector of every information set",
+        "exhaustive": {"quick": False, "thorough": False},
+        "trusted_base": ["Model/Cfr.v, Model/Tree.v hand written (validated per run); the estimator spec in Model/Cfr.v written from the property text; hooks Blueprint::verif_new/verif_tree/verif_profile, Encoder stand-in abstraction (a fixed function of the actor's cards and the board)"],
+
+        "spec_prefix": ["c10_"],
+        "technique": "Coq theorems composing the engine theorems (every menu entry is accepted, hands end zero-sum, bounded length) with the raise-cap and sampler-measure lemmas + per-run structural check of every node of real sampled trees against the extracted models",
+        "level_text": "Per run every node of every sampled tree is re-derived with the extracted engine / menu / tree models: bucket paths, the children of a traverser node are exactly the menu (each once), one child at opponent and chance nodes, every child is the parent after the translated permitted action, leaves are finished zero-sum hands, information sets partition the traverser's nodes by bucket, the bucket ignores the opponent's cards (metamorphic), fresh information sets are uniform, raise cap per betting round.",
+        "level_note": "Trusted: as C08. The PRNG stream (rand, SipHash) is not modelled; that the opponent action is drawn with the profile's probability is a statistical test in C20's stream.",
+        "explanation": "every node of sampled trees vs extracted models and structural predicates",
+        "assumptions": ["two seats"],
     },
     "C15": {
         "harness": "c15", "level": "proof",
